@@ -15,6 +15,7 @@ import SarpyModel.Drivers.Lifecycle
 import SarpyModel.Drivers.XmlFmt
 import SarpyModel.Drivers.Checker
 import SarpyModel.Drivers.Ortho
+import SarpyModel.Drivers.Chip
 namespace Sarpy.Drivers
 
 def step (line : String) : String :=
@@ -37,6 +38,7 @@ def step (line : String) : String :=
   | "xml" :: rest => (xmlStep rest).getD "bad-op"
   | "checker" :: rest => (checkerStep rest).getD "bad-op"
   | "ortho" :: rest => (orthoStep rest).getD "bad-op"
+  | "chip" :: rest => (chipStep rest).getD "bad-op"
   | _ => "bad-op"
 
 partial def loop (h : IO.FS.Stream) : IO Unit := do
